@@ -109,7 +109,7 @@ func Harness_C07_BlockedCallerResultRetry() {
 		callee.send(&wamp.Subscribe{Request: 99, Topic: "after"})
 		_, ns := vFindMsg[*wamp.Subscribed](callee.drain())
 		vAssert("callee-handler-released-after-retry-period", ns == 1)
-		vCover("retry-gave-up")
+		vCover("retry-gave-up(virtual-time)")
 	}
 	vAssert("no-worker-stuck-sending", vBlockedSends() == 0)
 }
